@@ -1,5 +1,5 @@
 import Indi.Properties.C06
-#print axioms Indi.Sys.C06_link_frame
-#print axioms Indi.Sys.C06_link_no_raise
-#print axioms Indi.Sys.C06_link_wire
+#print axioms Indi.Sys.C06_write_for
+#print axioms Indi.Sys.C06_write
+#print axioms Indi.Num.flIEEE_accurate
 #print axioms Indi.Num.C10_parse_denotes
